@@ -15,7 +15,7 @@ m = {
     "setup_cmd": "./setup.sh",
     "hooks": {
         "guard": "RANDOMX_VERIF",
-        "enable": "lib/build.py configures one cmake/ninja tree per variant under /verif/.build/<variant> from /repo's current working tree with -DRANDOMX_VERIF in CMAKE_C_FLAGS/CMAKE_CXX_FLAGS (variants: opt, asan, tsan, port)",
+        "enable": "lib/build.py configures one cmake/ninja tree per variant under /verif/.build/<variant> from /repo's current working tree with -DRANDOMX_VERIF in CMAKE_C_FLAGS/CMAKE_CXX_FLAGS (variants: opt, asan, tsan, port, xjit, xjit_asan; cov is a diagnostic build used by no check)",
         "baseline_off_cmd": "lib/baseline_off.sh",
         "source_commits": checks.HOOK_COMMITS,
         "add_only": True,
